@@ -1,0 +1,114 @@
+//go:build verif
+
+// Add-only verification hook (build tag `verif`): read-only snapshot of the
+// transaction pool's internals and a synchronous entry to reset.  Nothing in
+// here is compiled into a normal build.
+package core
+
+import (
+	"math/big"
+	"sort"
+
+	"gitlab.com/aquachain/aquachain/common"
+	"gitlab.com/aquachain/aquachain/core/types"
+)
+
+// VerifPoolList is one per-account list (pending or queue) without touching its cache.
+type VerifPoolList struct {
+	Strict  bool
+	Hashes  []common.Hash // nonce ascending (from the items map, not the cache)
+	Nonces  []uint64
+	Index   []uint64 // the heap index, sorted (must equal Nonces)
+	CostCap *big.Int
+	GasCap  uint64
+}
+
+// VerifPoolSnapshot is a copy of the unexported pool state taken under pool.mu.
+type VerifPoolSnapshot struct {
+	Pending       map[common.Address]VerifPoolList
+	Queue         map[common.Address]VerifPoolList
+	All           []common.Hash // sorted
+	PricedItems   []common.Hash // multiset of heap entries (stale ones included), sorted
+	PricedStales  int
+	PendingNonces map[common.Address]uint64 // pendingState.GetNonce for the requested addresses
+	CurrentNonces map[common.Address]uint64
+	Balances      map[common.Address]*big.Int
+	Locals        []common.Address
+	BeatRank      map[common.Address]int // number of accounts with a strictly earlier heartbeat; only accounts that have one
+	GasPrice      *big.Int
+	MaxGas        uint64
+}
+
+func verifList(l *txList) VerifPoolList {
+	out := VerifPoolList{Strict: l.strict, CostCap: new(big.Int).Set(l.costcap), GasCap: l.gascap}
+	for n := range l.txs.items {
+		out.Nonces = append(out.Nonces, n)
+	}
+	sort.Slice(out.Nonces, func(i, j int) bool { return out.Nonces[i] < out.Nonces[j] })
+	for _, n := range out.Nonces {
+		out.Hashes = append(out.Hashes, l.txs.items[n].Hash())
+	}
+	out.Index = append(out.Index, (*l.txs.index)...)
+	sort.Slice(out.Index, func(i, j int) bool { return out.Index[i] < out.Index[j] })
+	return out
+}
+
+func verifSortHashes(h []common.Hash) {
+	sort.Slice(h, func(i, j int) bool { return string(h[i][:]) < string(h[j][:]) })
+}
+
+// VerifSnapshot copies the internals; addrs selects the accounts whose nonces / balances are reported.
+func (pool *TxPool) VerifSnapshot(addrs []common.Address) *VerifPoolSnapshot {
+	pool.mu.Lock()
+	defer pool.mu.Unlock()
+	s := &VerifPoolSnapshot{
+		Pending:       map[common.Address]VerifPoolList{},
+		Queue:         map[common.Address]VerifPoolList{},
+		PendingNonces: map[common.Address]uint64{},
+		CurrentNonces: map[common.Address]uint64{},
+		Balances:      map[common.Address]*big.Int{},
+		BeatRank:      map[common.Address]int{},
+		PricedStales:  pool.priced.stales,
+		GasPrice:      new(big.Int).Set(pool.gasPrice),
+		MaxGas:        pool.currentMaxGas,
+	}
+	for a, l := range pool.pending {
+		s.Pending[a] = verifList(l)
+	}
+	for a, l := range pool.queue {
+		s.Queue[a] = verifList(l)
+	}
+	for h := range pool.all {
+		s.All = append(s.All, h)
+	}
+	verifSortHashes(s.All)
+	for _, tx := range *pool.priced.items {
+		s.PricedItems = append(s.PricedItems, tx.Hash())
+	}
+	verifSortHashes(s.PricedItems)
+	for _, a := range addrs {
+		s.PendingNonces[a] = pool.pendingState.GetNonce(a)
+		s.CurrentNonces[a] = pool.currentState.GetNonce(a)
+		s.Balances[a] = new(big.Int).Set(pool.currentState.GetBalance(a))
+	}
+	for a := range pool.locals.accounts {
+		s.Locals = append(s.Locals, a)
+	}
+	sort.Slice(s.Locals, func(i, j int) bool { return string(s.Locals[i][:]) < string(s.Locals[j][:]) })
+	for a, t := range pool.beats {
+		r := 0
+		for b, u := range pool.beats {
+			if b != a && u.Before(t) {
+				r++
+			}
+		}
+		s.BeatRank[a] = r
+	}
+	return s
+}
+
+// VerifReset runs TxPool.reset synchronously under the pool lock (what loop()
+// does on a ChainHeadEvent, without the goroutine hop).
+func (pool *TxPool) VerifReset(oldHead, newHead *types.Header) {
+	pool.lockedReset(oldHead, newHead)
+}
